@@ -335,11 +335,13 @@ pub fn angle_sol_surf(
     let cb = cosd(surf_tilt);
     let sg = sind(surf_azimuth);
     let cg = cosd(surf_azimuth);
+    // El coseno puede salirse de [-1, 1] por redondeo cuando el sol está en la normal de la superficie (o en su opuesta)
     acosd(
-        sd * sw * cb - sd * cw * sb * cg
+        (sd * sw * cb - sd * cw * sb * cg
             + cd * cw * cb * ch
             + cd * sw * sb * cg * ch
-            + cd * sb * sg * sh,
+            + cd * sb * sg * sh)
+            .clamp(-1.0, 1.0),
     )
 }
 
